@@ -16,6 +16,7 @@ import (
 	"github.com/rs/zerolog"
 
 	"github.com/yandex/mysync/internal/config"
+	"github.com/yandex/mysync/internal/mysql"
 
 	"github.com/yandex/mysync/internal/mysql/gtids"
 	"github.com/yandex/mysync/internal/verif/vt"
@@ -173,6 +174,15 @@ type c14Case struct {
 	// Optimize: choose through getMostDesirableReplicaToOptimize (the "or to optimise" path of the
 	// statement; the bound is the high replication mark) instead of getMostDesirableNode
 	Optimize bool `json:"choose_replica_to_optimize,omitempty"`
+	// Cfg: the bound the call runs with is the one the switch helper derives from this configuration
+	// (as performSwitchover does); Bound then holds the configured priority_choice_max_lag, which is
+	// what the statement's "configured bound" means to the oracle
+	Cfg *c14Cfg `json:"config,omitempty"`
+}
+
+type c14Cfg struct {
+	Async      bool    `json:"async"`
+	AllowedLag float64 `json:"async_allowed_lag_s"`
 }
 
 var vNop = zerolog.Nop()
@@ -189,6 +199,11 @@ func c14Run(r *vt.Run, fam map[uint8]vSet, c c14Case) {
 	}
 	pos := filterOutNodeFromPositions(all, from)
 	bound := time.Duration(c.Bound * float64(time.Second))
+	if c.Cfg != nil {
+		bound = mysql.NewSwitchHelper(&config.Config{ASync: c.Cfg.Async, AsyncAllowedLag: time.Duration(c.Cfg.AllowedLag * float64(time.Second)),
+			PriorityChoiceMaxLag: bound, SemiSync: !c.Cfg.Async, RplSemiSyncMasterWaitForSlaveCount: 1}).GetPriorityChoiceMaxLag()
+		r.Count("bound_derived_from_configuration")
+	}
 	type res struct {
 		host string
 		err  error
@@ -419,4 +434,39 @@ func checkC14(r *vt.Run) {
 		enum(full, n)
 	}
 	enum(red, redLen)
+	// the bound as the daemon derives it from its configuration (NewSwitchHelper): every list of up
+	// to 3 candidates over lags around both settings x sync/async x async_allowed_lag below, at and
+	// above priority_choice_max_lag
+	var calpha []c14Cand
+	for _, p := range []int64{0, 5} {
+		for _, l := range []float64{0, 5, 30, 61, 150} {
+			for _, m := range masks[:2] {
+				calpha = append(calpha, c14Cand{p, l, m})
+			}
+		}
+	}
+	for n := 1; n <= 3; n++ {
+		total := 1
+		for i := 0; i < n; i++ {
+			total *= len(calpha)
+		}
+		for code := 0; code < total; code++ {
+			idx++
+			if !r.Mine(idx) {
+				continue
+			}
+			cands := make([]c14Cand, n)
+			x := code
+			for i := 0; i < n; i++ {
+				cands[i] = calpha[x%len(calpha)]
+				x /= len(calpha)
+			}
+			for _, cf := range []c14Cfg{{false, 0}, {false, 10}, {true, 0}, {true, 10}, {true, 60}, {true, 100}} {
+				cf := cf
+				c := c14Case{Cands: cands, Bound: 60, From: -1, Cfg: &cf}
+				r.Crumb(c)
+				c14Run(r, fam, c)
+			}
+		}
+	}
 }
